@@ -54,6 +54,30 @@ def search(S):
                 MX = L.f(grp.elem(ca.DM(L.f(X.param))).to_Matrix())
                 S.check(name + ".from_Matrix", "right_inverse", inp, H.close(MX, MA, 1e-7), MA.tolist(), MX.tolist(),
                         "to_Matrix(from_Matrix(to_Matrix X)) != to_Matrix X")
+    # Euler elements just outside the gimbal band (the property excludes only +-1e-3 rad): neutral element, inverse and
+    # product with a small rotation must still be exact there
+    from cyecca.lie import SO3EulerB321 as EU
+    for sign in (1, -1):
+        for dth in (1.2e-3, 2e-3, 5e-3, 1e-2, 2e-2, 4e-2, 8e-2):
+            e = np.array([rng.uniform(-3, 3), sign * (np.pi / 2 - dth), rng.uniform(0.3, 3) * rng.choice([-1, 1])])
+            X = EU.elem(ca.DM(e)); MX = L.f(X.to_Matrix())
+            inp = {"a": e.tolist(), "pitch_offset": dth}
+            tol = 1e-9 / dth
+            try:
+                E0 = EU.identity()
+                S.check("SO3Euler.identity", "id_near_band", inp, H.close(L.f((E0 * X).to_Matrix()), MX, tol) and H.close(L.f((X * E0).to_Matrix()), MX, tol), MX.tolist(), L.f((X * E0).to_Matrix()).tolist(), "identity is not neutral for an Euler element just outside the gimbal band")
+                Xi = X.inverse()
+                S.check("SO3Euler.inverse", "inv_near_band", inp, H.close(L.f((Xi.inverse()).to_Matrix()), MX, tol), MX.tolist(), L.f(Xi.inverse().to_Matrix()).tolist(), "inverse of the inverse is a different rotation just outside the gimbal band")
+                # a product that lands just outside the band: X = A * B with A = X * B^-1 for an ordinary B
+                b = np.array([rng.uniform(-1, 1), rng.uniform(-0.6, 0.6), rng.uniform(-1, 1)])
+                B = EU.elem(ca.DM(b)); MB = L.f(B.to_Matrix())
+                A = EU.from_Matrix(ca.SX(ca.DM(MX @ MB.T)))
+                MA = L.f(EU.elem(ca.DM(L.f(A.param))).to_Matrix())
+                if L.euler_ok(MA):
+                    P = EU.elem(ca.DM(L.f(A.param))) * B
+                    S.check("SO3Euler.product", "hom_near_band", dict(inp, b=b.tolist()), H.close(L.f(P.to_Matrix()), MA @ MB, tol), (MA @ MB).tolist(), L.f(P.to_Matrix()).tolist(), "to_Matrix(X*Y) != to_Matrix(X) @ to_Matrix(Y) when the product lands just outside the gimbal band")
+            except Exception as ex:
+                S.check("SO3Euler", "raises", inp, False, None, "%s: %s" % (type(ex).__name__, str(ex)[:200]), "group operation raised")
     # Shepperd branches explicitly: rotations by large angles about each axis and diagonal-tie cases
     from cyecca.lie import SO3Quat, SO3Mrp
     for ax in (np.eye(3)[0], np.eye(3)[1], np.eye(3)[2], np.ones(3) / np.sqrt(3), np.array([1, 1, 0]) / np.sqrt(2)):
@@ -66,4 +90,4 @@ def search(S):
                         "matrix -> element -> matrix changed the rotation (Shepperd branch)")
 
 
-H.run(search, "per group (12 groups + 4 direct products): random valid elements (unit quaternions of both signs, MRPs inside/outside the unit ball away from the product singularity, orthonormal DCMs, Euler outside the gimbal band) incl. angles near 0 and near pi; hom/assoc/inv/id/from_Matrix compared as matrices with numpy; distinct = distinct (unit, input)")
+H.run(search, "per group (12 groups + 4 direct products): random valid elements (unit quaternions of both signs, MRPs inside/outside the unit ball away from the product singularity, orthonormal DCMs, Euler outside the gimbal band, incl. elements and products 1.2e-3 .. 8e-2 rad from the poles) incl. angles near 0 and near pi; hom/assoc/inv/id/from_Matrix compared as matrices with numpy; distinct = distinct (unit, input)")
